@@ -425,7 +425,7 @@ def _run_check(prop, tier, seed, replay, info, work, t0):
     if os.environ.get('VERIF_DEBUG'):
         with open(os.path.join(BUILD, 'debug_%s.txt' % pid), 'w') as f:
             for v in violations:
-                f.write('VIOL %s | %s\n  I %s\n  M %s\n  S %s\n' % (v[1], v[0], v[3], v[4], v[5]))
+                f.write('VIOL %s | %s\n  I %s\n  M %s\n  S %s %s\n' % (v[1], v[0], v[3], v[4], v[5], v[2]))
             for m in mismatches:
                 f.write('MISM | %s\n  I %s\n  M %s\n  S %s\n' % (m[0], m[2], m[3], m[4]))
     rc = 0
